@@ -11,4 +11,6 @@ for id in "$@"; do
   echo "$id exit=$? $(grep -c '^VIOLATION' build/seed-$id.log) $(grep '^VIOLATION' build/seed-$id.log | head -1)"
 done
 git -C /repo checkout -- .
+# rebuild the harness against the restored tree (otherwise a stale, patched binary stays in build/)
+( cd /verif/harness && CARGO_NET_OFFLINE=true CARGO_TARGET_DIR=/verif/build/target RUSTFLAGS="--cfg tikv_raft_rs_verif" cargo build --offline >/dev/null 2>&1 )
 git -C /repo status --short | head -3
